@@ -1028,6 +1028,16 @@ impl MerkleTree {
         nodes: &IntMap<Option<Node>>,
     ) -> Result<Either<Vec<StoreInfoInstruction>, ()>, HypercoreError> {
         if let Some(indexed) = indexed {
+            if !flat_tree::Iterator::new(root).contains(indexed.index) {
+                // The walk below climbs from the requested node until it reaches root: it
+                // would never end for a root that is not an ancestor of the requested node.
+                return Err(HypercoreError::InvalidOperation {
+                    context: format!(
+                        "Requested node {} is not within the tree of node {}",
+                        indexed.index, root
+                    ),
+                });
+            }
             let mut iter = flat_tree::Iterator::new(indexed.index);
             let mut instructions: Vec<StoreInfoInstruction> = Vec::new();
             let mut p_nodes: Vec<Node> = Vec::new();
@@ -1083,6 +1093,12 @@ impl MerkleTree {
         p: &mut LocalProof,
         nodes: &IntMap<Option<Node>>,
     ) -> Result<Either<Vec<StoreInfoInstruction>, ()>, HypercoreError> {
+        if !flat_tree::Iterator::new(root).contains(seek_root) {
+            // Same as in block_and_seek_proof: the climb from seek_root must be able to reach root
+            return Err(HypercoreError::InvalidOperation {
+                context: format!("Seek node {seek_root} is not within the tree of node {root}"),
+            });
+        }
         let mut iter = flat_tree::Iterator::new(seek_root);
         let mut instructions: Vec<StoreInfoInstruction> = Vec::new();
         let mut seek_nodes: Vec<Node> = Vec::new();
